@@ -107,8 +107,13 @@ impl TopicSocket<Frame, SeliumError> {
     ensures
         *final(self) is Pubsub == *old(self) is Pubsub,
 //@end
+impl<T, E> TopicSender<T, E> {
+    pub open spec fn chan_closed(&self) -> bool { match self { TopicSender::Pubsub(s) => s.chan_closed(), TopicSender::ReqRep(s) => s.chan_closed() } }
+}
 //@fn server/src/topic/mod.rs :: Sender :: close_channel [props=C16]
-    ensures *final(self) is Pubsub == *old(self) is Pubsub,
+    ensures
+        *final(self) is Pubsub == *old(self) is Pubsub,
+        final(self).chan_closed(),                                                              // [C16.shutdown_closes_the_registration_channel]
 //@end
 
 // ---- the shared topic map (Arc<Mutex<HashMap<TopicName, TopicChannel>>>) ----
